@@ -5,6 +5,6 @@ From OFGA Require Import Store.Paging.
 Extraction Language OCaml.
 Extraction "c14_model.ml"
   read_mem read_sql changes_mem changes_sql stores_mem stores_sql models_mem models_sql
-  follow follow_changes with_b64 read_tk_ok read_mem_finding offset_finding
+  follow follow_changes with_b64 read_tk_ok
   strictly_sorted nodupb ulid_parse norm_key page_size_opt atoi itoa
   read_sql_f stores_sql_f models_sql_f changes_sql_f keyset_fault_in_range storage_from desc.
